@@ -227,3 +227,23 @@ func zzNoPlugins() *plugin.Manager { return plugin.NewManager() }
 
 // stub for k8s validation.IsQualifiedName (regular expressions are not encoded)
 func zzStubIsQualifiedName(value string) []string { return nil }
+
+
+// locked accessors (the lock-discipline monitor also watches the harness)
+func zzCtlProxy(ctl *Control, name string) proxy.Proxy {
+	ctl.mu.RLock()
+	defer ctl.mu.RUnlock()
+	return ctl.proxies[name]
+}
+
+func zzCtlProxyCount(ctl *Control) int {
+	ctl.mu.RLock()
+	defer ctl.mu.RUnlock()
+	return len(ctl.proxies)
+}
+
+func zzSessions(svr *Service) int {
+	svr.ctlManager.mu.RLock()
+	defer svr.ctlManager.mu.RUnlock()
+	return len(svr.ctlManager.ctlsByRunID)
+}
